@@ -667,6 +667,9 @@ class Output(object):
 
         if self._address_obj:
             self.script_type = self._address_obj.script_type if script_type is None else script_type
+            if self.script_type in ['p2sh_p2wpkh', 'p2sh_p2wsh'] and self._address_obj.encoding == 'base58':
+                # The address of a P2SH embedded segwit script is a P2SH address: lock to the hash of the redeemscript
+                self.script_type = 'p2sh'
             # if not script_type:
             #     script_type = script_type_default(address.witness_type, address.multisig, True)
             self.public_hash = self._address_obj.hash_bytes
